@@ -28,13 +28,14 @@ func c08configs() []c08cfg {
 	rich := func() *Cfg {
 		return &Cfg{
 			Meta: &Meta{Pkg: P("gen"), DefaultMustGetter: P(true),
-				Imports:   []KV{{"a", "fx/b/pkg"}, {"ab", "fx/ab"}, {"pk", "fx/pk"}, {"zz", "fx/pk2"}},
+				Imports:   []KV{{"a", "fx/b/pkg"}, {"ab", "fx/ab"}, {"pk", "fx/pk"}, {"zz", "fx/pk2"}, {"pk.v2", "fx/a/pkg"}, {"pk.v2.x", "fx/os"}, {"pk-v2", "fx/errors"}},
 				Functions: []KV{{"f1", "pk.FnStr"}, {"f2", "ab.FnInt"}, {"f3", `"fx/a".FnE`}}},
 			Params: []Param{{"p3", "%f3()%%p1%"}, {"p1", 1}, {"p2", "%f1()%-%f2()%-%p1%"}},
 			Services: []Service{
 				{Name: "s3", Constructor: P("ab/sub.New"), Args: []any{"@s1", "%p2%", "!value a.Var"}, Fields: []KV{{"Fz", "!value \"fx/b/pkg\".Var"}, {"Fa", "@s1"}, {"Fm", "%p3%"}, {"Fb", "!value \"fx/errors\".Const"}, {"Fc", "!value \"fx/os\".Var"}}, Tags: []Tag{{Name: "tg"}}},
 				{Name: "s1", Constructor: P("a.New"), Getter: P("GetS1"), Type: P("*zz.Obj")},
 				{Name: "s2", Value: P("&ab.Obj{}"), Fields: []KV{{"F2", 2}, {"F1", "!tagged tg"}}},
+				{Name: "s4", Constructor: P("pk.v2.New"), Args: []any{"!value pk.v2.x.Var", "!value pk-v2.Const", "!value pk.v2/sub.Var"}},
 			},
 			Decorators: []Decorator{{Tag: "tg", Decorator: "zz.Dec1", Args: []any{"@s1"}}, {Tag: "tg", Decorator: "a.Dec2"}},
 		}
@@ -467,6 +468,47 @@ func init() {
 					}
 					for i := 0; i < 30; i++ {
 						run(fmt.Sprintf("fresh process %d", i), envs[0], dir)
+					}
+					// the same tree in two different directories, relative arguments, each run from its own directory
+					if cfg.args != nil || true {
+						relArgs := []string{"build"}
+						for _, f := range files {
+							if cfg.args == nil {
+								relArgs = append(relArgs, "-i", f.Name)
+							}
+						}
+						relArgs = append(relArgs, cfg.args...)
+						relArgs = append(relArgs, "-o", "out.go")
+						relArgs = append(relArgs, cfg.flags...)
+						rel := map[string]string{}
+						for _, sub := range []string{"first/project", "second/elsewhere/project"} {
+							root := filepath.Join(dir, sub)
+							for _, f := range files {
+								os.MkdirAll(filepath.Dir(filepath.Join(root, f.Name)), 0o755)
+								os.WriteFile(filepath.Join(root, f.Name), []byte(f.Content), 0o644)
+							}
+							cmd := exec.Command(filepath.Join(w.Shared, "gontainer"), relArgs...)
+							cmd.Env = envs[0]
+							cmd.Dir = root
+							out, err := cmd.CombinedOutput()
+							code := 0
+							if err != nil {
+								code = 1
+							}
+							b, _ := os.ReadFile(filepath.Join(root, "out.go"))
+							rel[fmt.Sprintf("%d|%s|%s", code, Sha(string(out)), Sha(string(b)))] = sub + "\n" + string(out)
+							c.Count("process_runs")
+							c.Count("evaluations_extra")
+						}
+						if len(rel) > 1 {
+							var ks []string
+							for k := range rel {
+								ks = append(ks, k)
+							}
+							sort.Strings(ks)
+							a, b := rel[ks[0]], rel[ks[1]]
+							c.Violation("cwd-dependent:"+cfg.id, "the same tree built with the same relative arguments from two different directories gives different results: "+firstDiff(a[strings.Index(a, "\n"):], b[strings.Index(b, "\n"):]), FilesMap(files), nil)
+						}
 					}
 					c.Distinct("nontrivial", c.ID)
 					if len(seen) > 1 {
